@@ -274,7 +274,8 @@ FLAT_KINDS = ["and", "or", "sum", "bitor", "rules", "seq_paren", "seq_calls", "h
 
 class C08(Prop):
     ID = "C08"
-    LEVEL = "proof (recursion depth) + exploration (runtime behaviour)"
+    LEVEL = "proof"
+    LEVEL_DETAIL = "proof (recursion depth) + exploration (runtime behaviour)"
     COQ_TARGETS = ["theories/Properties/C08.vo"]
     MODEL_TARGETS = ["theories/Base/ConstsParser.vo", "theories/Model/CallGraphCheck.vo", "theories/Model/CallGraph.vo"]
     CASE_HEADER = ""
